@@ -87,7 +87,7 @@ let sraw b =
   | Imm n -> "i" ^ hex_of_z n
   | Sto (neg, ds) -> "s" ^ (if neg then "1" else "0") ^ ":" ^ String.concat "," (List.map hex_of_z ds)
 let sbint b =
-  sraw b ^ "|" ^ (match bintToString b with Some s -> st s | None -> "none")
+  sraw b ^ "|" ^ (if text_limit_ok b then (match bintToString b with Some s -> st s | None -> "none") else "-")
 let sob o = match o with Some b -> sbint b | None -> "none"
 
 let run toks =
